@@ -112,3 +112,15 @@ Qed.
 Example repaired_on_witness_b :
   In (mkout 0 true 1%Q 10) (run_all (cfg_budgets true) whale_ord (sel_random (fun _ => 0%Q)) rf_det 2 fc05b_rows []).
 Proof. vm_compute. auto. Qed.
+
+(* F-C06c: on the F-C05b bucket the fixed-budget metric 1 (size 10 <= fixed budget 15) is not kept with factor 1 *)
+Theorem fixed_within_budget_kept_refuted : exists c ord sel rf budget rows dr r,
+  c_fix c = false /\ c_budgets c = true /\ In r rows /\ 0 < r_budget r /\
+  sum_size (filter (fun r' => r_metric r' =? r_metric r) rows) <= r_budget r /\
+  ~ In (keep 1 r) (run_all c ord sel rf budget rows dr).
+Proof.
+  exists (cfg_budgets false), whale_ord, sel_det, rf_det, 2, fc05b_rows, [], (row_sz 0 10 0 1 15).
+  split; [reflexivity|]. split; [reflexivity|]. split; [left; reflexivity|]. split; [reflexivity|].
+  split; [vm_compute; discriminate|].
+  vm_compute. intros [H|[H|[]]]; discriminate.
+Qed.
